@@ -1,7 +1,7 @@
 """C18 configuration for ./check (see checks/propcfg.py for the keys)."""
 CFG = {
-    "modules": ["VaxisModel.Props.C18", "VaxisModel.Witness.F118"],
-    "extractors": ["C07", "C18"],
+    "modules": ["VaxisModel.Props.C18", "VaxisModel.Props.C18Bytes", "VaxisModel.Witness.F118"],
+    "extractors": ["C07", "C18", "C02"],
     "drivers": ["C18"],
     "stateful": False,
     "trivial_prefix": ("-\t",),
